@@ -5,9 +5,8 @@ from rules import c02 as C02
 from rules import c04 as C04
 from rules import c09 as C09
 
-EXT = "model::structures::complex::import_extension_fields"
-CC = "model::structures::complex::read_complex_content_node"
-APPENDERS = ("import_sequence_node_fields", "import_choice_fields", "Vec::<T, A>::push", "Vec::<T, A>::extend", "iter::Extend::extend",
+from rules import anchors as A
+VEC_APPENDS = ("Vec::<T, A>::push", "Vec::<T, A>::extend", "iter::Extend::extend",
              "Vec::<T, A>::extend_from_slice", "Vec::<T, A>::append", "Vec::<T, A>::insert")
 
 
@@ -23,17 +22,31 @@ def run(ck, F):
     ck.rule("R2", "whole-field copy: base members are cloned as whole Field values from the base struct's field list")
     ck.rule("R3", "extension dispatch: own content of <extension> includes sequence and attribute children")
     ck.rule("R4", "base lookup by (local name, namespace of the prefix)")
-    fb = F.lib.body(EXT)
+    roles = A.complex_readers(F)
+    EXT = A.role_path(roles, "extension")
+    CC = A.role_path(roles, "complexContent")
+    # the other functions that append members to a field list handed to them
+    own_appenders = tuple(p for p, r in roles.items() if r == "sequence" or r.startswith("appender#"))
+    APPENDERS = own_appenders + VEC_APPENDS
+    fb = F.lib.body(EXT) if EXT else None
     if fb is None or not fb.get("mir"):
-        ck.undecided("R1", "anchor", "-", "import_extension_fields not found")
+        ck.undecided("R1", "anchor", "-", "no function could be attributed the role of the extension importer (reads `base`, appends to a Vec<Field>)")
         return
     B = M.Body(fb)
+    # the field list being filled: the `&mut Vec<Field>` parameter
+    flp = [l for l in range(1, B.arg_count + 1) if "Vec<model::field::Field>" in B.local_ty(l)]
+    if len(flp) != 1:
+        ck.undecided("R1", "anchor", fb["span"], "the extension importer does not have exactly one Vec<Field> parameter")
+        return
+    FL = flp[0]
+    ext_short = EXT.rsplit("::", 1)[-1]
+    cc_short = CC.rsplit("::", 1)[-1] if CC else "?"
     copies = []
     for bb, t in B.calls():
         d = M.Body.callee_decl(t) or ""
         if d.endswith(("clone::Clone::clone_from",)) or d.endswith(("Vec::<T, A>::extend", "iter::Extend::extend")) or d.endswith("extend_from_slice"):
             dst = M.trace(B, t["args"][0], ())
-            if dst and all(o.kind == "arg" and o.local == 3 for o in dst):
+            if dst and all(o.kind == "arg" and o.local == FL for o in dst):
                 src = M.trace(B, t["args"][1], M.IDENTITY_CALLS + ("[T]>::iter", "Vec::<T, A>::iter", "iter::Iterator::cloned", "iter::Iterator::copied",
                                                                      "IntoIterator::into_iter", "Vec::<T, A>::as_slice", "[T]>::to_vec"))
                 from_base = bool(src) and all("fields" in o.fields() for o in src)
@@ -45,37 +58,39 @@ def run(ck, F):
         if any(d.endswith(a) for a in APPENDERS) and (bb, t) not in copies:
             for a in t["args"]:
                 os_ = M.trace(B, a, ())
-                if os_ and all(o.kind == "arg" and o.local == 3 for o in os_):
+                if os_ and all(o.kind == "arg" and o.local == FL for o in os_):
                     appends.append((bb, t))
                     break
     if len(copies) != 1:
         ck.violation("R1", f"base-copy:count={len(copies)}", fb["span"],
-                     f"import_extension_fields copies the base struct's fields {len(copies)} times (expected exactly one copy from `<base>.fields`)", fn="import_extension_fields")
+                     f"{ext_short} copies the base struct's fields {len(copies)} times (expected exactly one copy from `<base>.fields`)", fn="extension")
     else:
         cbb, ct = copies[0]
         if B.in_cycle(cbb):
-            ck.violation("R1", "base-copy:in-loop", B.term(cbb).get("sp"), "the base copy sits in a loop", fn="import_extension_fields")
+            ck.violation("R1", "base-copy:in-loop", B.term(cbb).get("sp"), "the base copy sits in a loop", fn="extension")
         bad = [abb for abb, _ in appends if cbb in B.reachable_from(abb)]
         if bad:
             ck.violation("R1", "own-before-base", B.term(bad[0]).get("sp"),
                          "own members can be appended before the base type's members are copied: inherited members do not come first "
-                         "(or are overwritten by the copy)", fn="import_extension_fields")
+                         "(or are overwritten by the copy)", fn="extension")
         else:
-            ck.ok("R1", "base-before-own", B.term(cbb).get("sp"), f"the base copy precedes all {len(appends)} append sites of own members", fn="import_extension_fields")
+            ck.ok("R1", "base-before-own", B.term(cbb).get("sp"), f"the base copy precedes all {len(appends)} append sites of own members", fn="extension")
         d = M.Body.callee_decl(ct) or ""
         if d.endswith("clone_from") or "extend" in d:
-            ck.ok("R2", "whole-field-copy", B.term(cbb).get("sp"), "base members are cloned as whole Field values (Vec<Field> clone)", fn="import_extension_fields")
+            ck.ok("R2", "whole-field-copy", B.term(cbb).get("sp"), "base members are cloned as whole Field values (Vec<Field> clone)", fn="extension")
     ck.floor("R1", "append sites of own members", len(appends), 1)
     # read_complex_content_node: extension import before own sequence loop
-    cb = F.lib.body(CC)
+    cb = F.lib.body(CC) if CC else None
+    if cb is None:
+        ck.undecided("R1", "extension-before-own-content", "-", "no reader calls the extension importer")
     if cb is not None and cb.get("mir"):
         CB = M.Body(cb)
         ext_calls = CB.calls_to(EXT)
-        own = [(bb, t) for bb, t in CB.calls() if (M.Body.callee(t) or "").endswith(("import_sequence_node_fields", "import_choice_fields"))]
+        own = [(bb, t) for bb, t in CB.calls() if (M.Body.callee(t) or "") in own_appenders]
         if len(ext_calls) == 1 and all(ext_calls[0][0] not in CB.reachable_from(bb) for bb, _ in own):
-            ck.ok("R1", "extension-before-own-content", CB.term(ext_calls[0][0]).get("sp"), "read_complex_content_node imports the extension (base members) before own content", fn="read_complex_content_node")
+            ck.ok("R1", "extension-before-own-content", CB.term(ext_calls[0][0]).get("sp"), f"{cc_short} imports the extension (base members) before own content", fn="complexContent")
         else:
-            ck.violation("R1", "extension-before-own-content", cb["span"], "read_complex_content_node can import own content before the extension/base members", fn="read_complex_content_node")
+            ck.violation("R1", "extension-before-own-content", cb["span"], f"{cc_short} can import own content before the extension/base members", fn="complexContent")
     # R2: Field values constructed only in Field::try_from_node
     others = [s for s in og.field_summaries(F, "model::field::Field") if "try_from_node" not in s[0] and "Clone" not in s[0] and "Default" not in s[0]]
     if others:
@@ -107,22 +122,26 @@ def run(ck, F):
         else:
             ck.undecided("R2", "positive-control", "engine/controls/src/lib.rs", f"member-write scanner reports {sorted(chits)} on the controls")
     # R3 shared with C02.R4
-    sub = C04._Sub(ck, "R3", lambda key: key.startswith("import_extension_fields"), only_rules=("R4",))
+    sub = C04._Sub(ck, "R3", lambda key: key.startswith("extension"), only_rules=("R4",))
     C02.rule_dispatch(sub, F, None)
     # R4: lookup arguments
     nf_ok = False
-    for bb, t in B.calls_to("RustDocument::find_node_by_xml_name"):
-        name = M.trace(B, t["args"][2], M.IDENTITY_CALLS)
-        ns = M.trace(B, t["args"][3], M.IDENTITY_CALLS + ("Option::<T>::as_deref",))
-        rt = lambda os_: bool(os_) and all(o.kind == "call" and (M.Body.callee_decl(o.term) or "").endswith("field::resolve_type") for o in os_)
+    RESOLVE = A.qname_resolver(F)
+    lookups = {p_: (ni, si) for p_, ni, si in A.component_lookups(F)}
+    base_lookups = [(bb, t) for bb, t in B.calls() if (M.Body.callee(t) or M.Body.callee_decl(t) or "") in lookups or (M.Body.callee_decl(t) or "") in lookups]
+    for bb, t in base_lookups:
+        ni, si = lookups.get(M.Body.callee(t) or "") or lookups.get(M.Body.callee_decl(t) or "")
+        name = M.trace(B, t["args"][ni], M.IDENTITY_CALLS)
+        ns = M.trace(B, t["args"][si], M.IDENTITY_CALLS + ("Option::<T>::as_deref",))
+        rt = lambda os_: bool(os_) and RESOLVE is not None and all(o.kind == "call" and RESOLVE in ((M.Body.callee_decl(o.term) or ""), (M.Body.callee(o.term) or "")) for o in os_)
         if rt(name) and rt(ns):
             nf_ok = True
-            ck.ok("R4", "lookup-by-name-and-namespace", B.term(bb).get("sp"), "base looked up by resolve_type(base attribute) = (local name, namespace of the prefix)", fn="import_extension_fields")
+            ck.ok("R4", "lookup-by-name-and-namespace", B.term(bb).get("sp"), "base looked up by the resolved base QName = (local name, namespace of the prefix)", fn="extension")
         else:
-            ck.violation("R4", "lookup-by-name-and-namespace", B.term(bb).get("sp"), "the base lookup does not use (local name, namespace) of the base QName", fn="import_extension_fields")
-    if not nf_ok and not B.calls_to("RustDocument::find_node_by_xml_name"):
+            ck.violation("R4", "lookup-by-name-and-namespace", B.term(bb).get("sp"), "the base lookup does not use (local name, namespace) of the base QName", fn="extension")
+    if not nf_ok and not base_lookups:
         ck.undecided("R4", "lookup", fb["span"], "no base lookup found")
     # the lookup itself must select by namespace (shared with C09.R3): a base of another namespace with the same local name
     # must not be confused with a local one
-    sub = C04._Sub(ck, "R4", lambda key: key.startswith(("find_node_by_xml_name", "try_to_find_node_by_xml_name")), only_rules=("R3",))
+    sub = C04._Sub(ck, "R4", lambda key: key.startswith(("registry-lookup", "xml-lookup")), only_rules=("R3",))
     C09.run(sub, F)
